@@ -10,6 +10,9 @@ pub mod plan;
 pub mod hist;
 pub mod digest;
 pub mod crashfs;
+pub mod sched;
+pub mod lin;
+pub mod conc;
 
 pub use runner::{CheckResult, Ctx, Fail, Obs, Tier};
 pub use val::{V, VT};
